@@ -1177,12 +1177,17 @@ func (ctx *Context) evaluate() {
 			stName, stVal := stackPop2()
 			stInfo := code.Value.(StInfo)
 
+			if stInfo.Op == "-" {
+				// 负号取正，以免-和-=出现符号一正一反的情况
+				neg := stVal.OpNegation()
+				if neg == nil {
+					ctx.Error = fmt.Errorf("此类型无法使用一元算符 -: %s", stVal.GetTypeName())
+					return
+				}
+				stVal = neg
+			}
 			if e.Config.CallbackSt != nil {
 				name, _ := stName.ReadString()
-				if stInfo.Op == "-" {
-					// 负号取正，以免-和-=出现符号一正一反的情况
-					stVal = stVal.OpNegation()
-				}
 				e.Config.CallbackSt("mod", name, stVal.Clone(), nil, stInfo.Op, stInfo.Text)
 			}
 		case typeStX0:
